@@ -21,6 +21,39 @@ func init() {
 }
 
 // dataChanSend: the channel operand of a send (Send instr or select send state) derives from Stream.dataChan.
+var dataChanDepth int
+
+// allFuncsOfPkg: the functions and methods of an SSA package, closures included.
+func allFuncsOfPkg(p *ssa.Package) []*ssa.Function {
+	var out []*ssa.Function
+	var add func(f *ssa.Function)
+	add = func(f *ssa.Function) {
+		if f == nil || f.Blocks == nil {
+			return
+		}
+		out = append(out, f)
+		for _, af := range f.AnonFuncs {
+			add(af)
+		}
+	}
+	for _, m := range p.Members {
+		switch x := m.(type) {
+		case *ssa.Function:
+			add(x)
+		case *ssa.Type:
+			for _, t := range []types.Type{x.Type(), types.NewPointer(x.Type())} {
+				ms := p.Prog.MethodSets.MethodSet(t)
+				for i := 0; i < ms.Len(); i++ {
+					if f := p.Prog.MethodValue(ms.At(i)); f != nil && f.Pkg == p && f.Synthetic == "" {
+						add(f)
+					}
+				}
+			}
+		}
+	}
+	return out
+}
+
 func isDataChan(v ssa.Value, dc *types.Var) (direct bool, cached bool) {
 	// a variable that is nil until the reference is looked up (`var ch chan T; if !stopped { ch = s.dataChan }`)
 	if _, isPhi := v.(*ssa.Phi); isPhi {
@@ -43,6 +76,40 @@ func isDataChan(v ssa.Value, dc *types.Var) (direct bool, cached bool) {
 			return false, false
 		}
 		return direct, cached && !direct
+	}
+	// a channel parameter of a helper that is handed the buffer reference at every call (`bs.sendWithin(ch, row, d)`):
+	// a cached reference inside the helper
+	if prm, isPrm := v.(*ssa.Parameter); isPrm && dataChanDepth < 2 {
+		if _, isChan := prm.Type().Underlying().(*types.Chan); isChan {
+			fn := prm.Parent()
+			idx := -1
+			for i, q := range fn.Params {
+				if q == prm {
+					idx = i
+				}
+			}
+			calls, all := 0, true
+			if fn.Pkg != nil && idx >= 0 {
+				for _, caller := range allFuncsOfPkg(fn.Pkg) {
+					allInstrs(caller, func(in ssa.Instruction) {
+						cc := callCommon(in)
+						if cc == nil || cc.StaticCallee() != fn || idx >= len(cc.Args) {
+							return
+						}
+						calls++
+						dataChanDepth++
+						d, c := isDataChan(cc.Args[idx], dc)
+						dataChanDepth--
+						if !d && !c {
+							all = false
+						}
+					})
+				}
+			}
+			if calls > 0 && all {
+				return false, true
+			}
+		}
 	}
 	t := TermOf(v, nil)
 	if t.Kind == "field" && t.Field == dc {
